@@ -58,7 +58,12 @@ def render_events(events, in_body):
             arity, sents, body = ev[1], ev[2], ev[3]
             head = "λ" if arity is None else f"λ{arity}|"
             pre = lit_args(sents)
-            out.append((pre + " " if pre else "") + head + " W ⅛ " + render_events(body, True) + " 0 ; † _")
+            if len(ev) > 4 and ev[4]:
+                # the body ends with an EMPTY stack: the lambda's result is one more implicit read in its own scope,
+                # made observable by sending the returned value to the global array
+                out.append((pre + " " if pre else "") + head + " W ⅛ " + render_events(body, True) + " ; † ⅛")
+            else:
+                out.append((pre + " " if pre else "") + head + " W ⅛ " + render_events(body, True) + " 0 ; † _")
         elif k == "fn":
             name, params, sents, body = ev[1], ev[2], ev[3], ev[4]
             named = [p for p in params if not p.isdigit()]
@@ -78,7 +83,8 @@ def render_events(events, in_body):
                            + (" 1 ; →m" if kind == "filter" else " 0 ; →m") + h)
         elif k == "force":
             h, n = ev[1], ev[2]
-            out.append(f"←m{h} {n} Ẏ _")
+            # n > 50 means "force everything, past the end" (length); otherwise the first n items
+            out.append(f"←m{h} L _" if n > 50 else f"←m{h} {n} Ẏ _")
         else:
             raise ValueError(ev)
     return " ".join(out)
@@ -161,6 +167,8 @@ class Monitor:
                 child = Scope("call", args)
                 self.calls.append(child)
                 self.walk(body, child)
+                if len(ev) > 4 and ev[4]:
+                    child.groups.append([self.take("value returned by a lambda whose stack was empty")])
             elif k == "fn":
                 name, params, sents, body = ev[1], ev[2], ev[3], ev[4]
                 m = sum(int(p) for p in params if p.isdigit())
@@ -307,7 +315,7 @@ class C11(core.Check):
                 a = 1 if arity is None else arity
                 p = r.randint(0, a)
                 evs.append(["lam", arity, [sent() for _ in range(p)],
-                            self.gen_events(r, depth + 1, 0, maps, True, sent)])
+                            self.gen_events(r, depth + 1, 0, maps, True, sent), r.random() < 0.3])
             elif x < 0.80 and depth < 2 and not in_body:
                 params = r.choice([["1"], ["2"], ["3"], ["a"], ["1", "a"], ["a", "2"], []])
                 total = sum(int(q) if q.isdigit() else 1 for q in params)
@@ -324,7 +332,7 @@ class C11(core.Check):
                 evs.append(["map", kind, items, self.gen_events(r, 2, 0, [], True, sent)[:2], h])
             elif maps:
                 h, ln = r.choice(maps)
-                evs.append(["force", h, r.randint(1, ln)])
+                evs.append(["force", h, r.choice([r.randint(1, ln), ln + 1, 99])])
             else:
                 evs.append(["exp"])
         return evs
@@ -352,7 +360,7 @@ class C11(core.Check):
         # make sure deferred bodies are eventually forced somewhere
         for h, ln in maps:
             if rw.random() < 0.7:
-                events.insert(rw.randint(0, len(events)), ["force", h, ln])
+                events.insert(rw.randint(0, len(events)), ["force", h, rw.choice([ln, ln + 1, 99])])
         # a force placed before its map is a no-op in both the program (NameError -> discard) and the model: repair
         seen, fixed = set(), []
         for ev in events:
@@ -375,7 +383,11 @@ class C11(core.Check):
             elif mode == "blank":
                 stdin = ["" for _ in range(rf.randint(1, 3))]
         driver = "main" if rw.random() < 0.3 else "world"
-        return dict(inputs=inputs, events=events, stdin=stdin, stdin_after=after, driver=driver)
+        case = dict(inputs=inputs, events=events, stdin=stdin, stdin_after=after, driver=driver)
+        if rw.random() < 0.35:
+            # an earlier, unrelated execution in the same process (its own Context, its own inputs, r reads)
+            case["prelude"] = [[rw.randint(200, 299) for _ in range(rw.randint(1, 3))], rw.randint(1, 5)]
+        return case
 
     # ---------------------------------------------------------------------------- execution
     def run(self, case):
@@ -386,6 +398,8 @@ class C11(core.Check):
         except Exception:
             return dict(verdict=DISCARD, sig="render", log=[], steps=0, hist=None)
         log = [dict(program=text, inputs=inputs, stdin=case.get("stdin"), after=case.get("stdin_after"))]
+        if case.get("prelude"):
+            self.run_prelude(case["prelude"], case.get("driver"))
         del self.seam_log[:]
         outcome, steps = None, 0
         judged_stdin = not any(isinstance(x, str) for x in case.get("stdin") or [])
@@ -438,6 +452,13 @@ class C11(core.Check):
             finally:
                 steps = world.CLOCK.stop()
         faults = dict(("stdin_" + k, v) for k, v in world.STDIN.faults.items())
+        if (outcome in ("raised:OSError", "raised:EOFError", "raised:InterruptedError") and not inputs
+                and world.STDIN.faults and not any(isinstance(x, str) for x in case.get("stdin") or [])):
+            sig = "no-input-raises:n=0:" + outcome.split(":")[1]
+            log.append(dict(violation=sig))
+            return dict(verdict=VIOLATION, sig=sig, log=log, steps=steps, faults=faults, hist=core.digest(case),
+                        detail=f"program={text!r} with no inputs: the failure of the stdin read ({world.STDIN.log[-1:]}) "
+                               f"propagated as {outcome.split(':')[1]} instead of the read yielding 0")
         if outcome is not None or ctx is None:
             log.append(dict(outcome=outcome))
             return dict(verdict=DISCARD, sig=outcome or "no-context", log=log, steps=steps, faults=faults, hist=None)
@@ -479,6 +500,27 @@ class C11(core.Check):
                     probes={"top_reads": ntop, "call_scopes": len(mon.calls), "deferred": sum(m["done"] for m in mon.maps.values()),
                             "wrapped_around": int(n > 0 and ntop > n), "no_inputs": int(n == 0)})
 
+    def run_prelude(self, prelude, driver):
+        """A previous execution: fresh Context, its own inputs, r explicit reads.  It must not influence what follows."""
+        pin, r = prelude
+        text = " ".join(["? _"] * r)
+        world.CLOCK.start(budget=STEP_BUDGET, count_string=True)
+        old = sys.stdout
+        try:
+            if driver == "main":
+                w = world.World(inputs=[])
+                sys.stdout = w.out
+                self.m["main"].execute_vyxal(text, "eO", [str(x) for x in pin])
+            else:
+                w = world.World(inputs=pin)
+                w.run_code(w.compile_program(text))
+        except BaseException as e:  # the prelude is trivial; anything here is the harness's problem
+            if isinstance(e, (KeyboardInterrupt,)):
+                raise
+        finally:
+            sys.stdout = old
+            world.CLOCK.stop()
+
     def flat_events(self, events):
         for ev in events:
             yield ev
@@ -505,7 +547,9 @@ class C11(core.Check):
             if ev[0] == "imp" and ev[1] > 1 and len(ev[2]) < ev[1] - 1:
                 yield events[:i] + [["imp", ev[1] - 1, ev[2]]] + events[i + 1:]
             if ev[0] == "lam" and ev[2]:
-                yield events[:i] + [["lam", ev[1], ev[2][:-1], ev[3]]] + events[i + 1:]
+                yield events[:i] + [["lam", ev[1], ev[2][:-1], ev[3]] + ev[4:]] + events[i + 1:]
+            if ev[0] == "lam" and len(ev) > 4 and ev[4]:
+                yield events[:i] + [ev[:4] + [False]] + events[i + 1:]
 
     def shrink(self, case):
         if case.get("driver") == "main":
@@ -521,6 +565,13 @@ class C11(core.Check):
                 yield dict(case, inputs=inp[:i] + [v[0]] + inp[i + 1:])
         if case.get("stdin"):
             yield dict(case, stdin=[])
+        if case.get("prelude"):
+            c = dict(case)
+            del c["prelude"]
+            yield c
+
+    def self_contained(self, case):
+        return bool(case.get("prelude"))
 
     def sig_class(self, sig):
         return sig.split(":")[0]
